@@ -182,6 +182,7 @@ func (j *job[T]) changeStatus(s status) {
 func (j *job[T]) startProcessing() bool {
 	for {
 		s := j.status.Load()
+		vhook("job.sp.load", j)
 
 		if s == closed {
 			return false
@@ -198,6 +199,7 @@ func (j *job[T]) startProcessing() bool {
 func (j *job[T]) markClosed() error {
 	for {
 		s := j.status.Load()
+		vhook("job.mc.load", j)
 
 		switch s {
 		case processing:
@@ -272,6 +274,7 @@ func (j *job[T]) Close() error {
 	if err := j.isCloseable(); err != nil {
 		return err
 	}
+	vhook("jclose.checked", j)
 
 	if err := j.ack(); err != nil {
 		return err
